@@ -591,6 +591,45 @@ theorem zoneKept_sound (op : Op) (ts : Int) (zone : List Int) (x : Int) (hx : x 
   · simp; omega
   · simp; omega
 
+/-! ## ZoneTemporalIndex -/
+
+theorem ztiKey_one (mn t : Int) (h : mn ≤ t) : ztiKey mn 1 t = (t - mn).toNat := by
+  unfold ztiKey
+  rw [Int.ediv_one]
+  congr 1
+  omega
+
+/-- With stride 1 `contains_ts` is exactly membership in the values the index was built from. -/
+theorem zti_contains_stride1 (vals : List Int) (ts : Int) :
+    (ztiBuild vals 1).contains ts = true ↔ ts ∈ vals := by
+  unfold ZTI.contains ztiBuild
+  simp only []
+  constructor
+  · intro h
+    by_cases hr : ts < listMin vals ∨ ts > listMax vals
+    · simp [hr] at h
+    · have h1 : ¬ ((1 : Int) > 1 ∧ (ts - listMin vals) % 1 ≠ 0) := by omega
+      simp only [hr, h1, if_false, List.contains_eq_mem, List.mem_map, decide_eq_true_eq] at h
+      obtain ⟨t, ht, hk⟩ := h
+      have hmin := listMin_le vals t ht
+      rw [ztiKey_one _ _ hmin, ztiKey_one _ _ (by omega)] at hk
+      have : t = ts := by omega
+      rw [← this]; exact ht
+  · intro hmem
+    have hmin := listMin_le vals ts hmem
+    have hmax := le_listMax vals ts hmem
+    have hr : ¬ (ts < listMin vals ∨ ts > listMax vals) := by omega
+    have h1 : ¬ ((1 : Int) > 1 ∧ (ts - listMin vals) % 1 ≠ 0) := by omega
+    simp only [hr, h1, if_false, List.contains_eq_mem, List.mem_map, decide_eq_true_eq]
+    exact ⟨ts, hmem, rfl⟩
+
+theorem ztiKeeps_stride1 (op : Op) (ts : Int) (zone : List Int) :
+    ztiKeeps op ts (ztiBuild zone 1) = zoneKept op ts zone := by
+  cases op <;> simp only [ztiKeeps, zoneKept] <;> try rfl
+  congr 1
+  rw [Bool.eq_iff_iff, zti_contains_stride1]
+  simp
+
 /-! ## Buckets -/
 
 theorem daysFromCivil_day (y : Int) (m d : Nat) :
